@@ -146,6 +146,10 @@ def scenario(draw) -> Dict[str, Any]:
             # a third of the scenarios are looked at a second time 80 or 160 minutes after the settling point (past one or two
             # full pointer lifetimes): the refresh queries of the browsers have to keep every registered instance reported
             'late_s': draw(st.sampled_from([0, 0, 0, 0, 4800, 9600])),
+            # ... and in those, one more browser may be started long after everything has settled (past half of the pointer TTL, when
+            # the host's cache entries are stale but valid), on any host: it has to report the registered instances like the others
+            'late_browser': draw(st.sampled_from([None, {'host': draw(st.integers(0, n_hosts - 1)), 'types': draw(st.lists(st.integers(0, 2), min_size=1, max_size=3, unique=True).map(sorted)),
+                                                         'at_s': draw(st.sampled_from([600, 2300, 2400, 3000, 3500]))}])),
             'drops': [[draw(st.integers(0, 999)), draw(st.sampled_from(['all', 'one'])), draw(st.sampled_from(['any', 'critical', 'critical', 'goodbye', 'goodbye-last']))]
                       for _ in range(3)]}
 
@@ -372,8 +376,20 @@ class Run:
         self.events = {bi: list(lst.events) for bi, lst in self.listeners.items()}
         await asyncio.sleep(4.0)        # let lookups started late finish
         self.late_live = None
+        self.late_listener = None
         if case.get('late_s'):
-            await asyncio.sleep(case['late_s'])
+            lb = case.get('late_browser')
+            slept = 0.0
+            if lb and lb['host'] not in self.host_closed_at and hosts[lb['host']] is not None:
+                await asyncio.sleep(lb['at_s'])
+                slept = lb['at_s']
+                self.late_listener = sim.RecListener(w, tag=f"H{lb['host']}", on_add=on_add)
+                types = [TYPES[i] for i in lb['types']]
+                AsyncServiceBrowser(hosts[lb['host']].zc, types if len(types) > 1 else types[0], listener=self.late_listener)
+            await asyncio.sleep(case['late_s'] - slept)
+            if self.late_listener is not None:
+                self.late_browser_live = {t: set(v) for t, v in self.late_listener.live().items()}      # before the hosts are torn down
+                self.late_browser_events = list(self.late_listener.events)
             self.late_live = {bi: {t: set(v) for t, v in lst.live().items()} for bi, lst in self.listeners.items()}
             self.late_events = {bi: list(lst.events) for bi, lst in self.listeners.items()}
 
@@ -501,6 +517,17 @@ def judge(case: Dict[str, Any], run: Run, label: str) -> None:
                                     dict(det, browser=bi, host=b['host'], type=t, reported=sorted(got), registered=sorted(want),
                                          callbacks=[(x['kind'], x['name'], rel(x['t'])) for x in run.late_events[bi] if x['type'] == t][-8:]),
                                     tag='not-stable:' + ('missing' if want - got else 'stale'))
+    if run.late_live is not None and run.late_listener is not None:
+        lb = case['late_browser']
+        live = run.late_browser_live
+        for ti in lb['types']:
+            t = TYPES[ti]
+            got, want = live.get(t, set()), expected[t]
+            if got != want:
+                raise Violation('a browser started long after the link had settled does not report the registered instances of its type',
+                                dict(det, host=lb['host'], type=t, started_s=lb['at_s'], reported=sorted(got), registered=sorted(want),
+                                     callbacks=[(x['kind'], x['name'], rel(x['t'])) for x in run.late_browser_events if x['type'] == t][-8:]),
+                                tag='late-browser:' + ('missing' if want - got else 'stale'))
     # lookups from inside Added callbacks
     for lk in run.lookups:
         if not lk['done']:
@@ -633,5 +660,7 @@ def check(case: Dict[str, Any]) -> Dict[str, Any]:
         classes.append('lookups-from-callback')
     if case.get('late_s'):
         classes.append('second-look-after-%d-s' % case['late_s'])
+        if case.get('late_browser'):
+            classes.append('browser-started-%d-s-after-settling' % case['late_browser']['at_s'])
     return {'nontrivial': used_drop or base.in_flight_browser_start, 'classes': classes, 'evaluations': runs,
             'max': {'datagrams': n, 'runs': runs, 'lookups': len(base.lookups)}, 'sample': {'case': case, 'datagrams': n, 'runs': runs}}
